@@ -50,6 +50,9 @@ pub fn case(ch: &mut Chooser, max_depth: u32) -> Report {
     if labels.applies > 0 {
         rep.label("apply");
     }
+    if labels.closures_in_data > 0 {
+        rep.label("closures-leave-a-body-inside-a-list");
+    }
     if labels.redefinitions > 0 {
         rep.label("top-level-name-redefined-with-a-like-value");
     }
